@@ -252,20 +252,24 @@ def block_cfg(root):
         blocks[name] = lv
         return name
 
-    def test_blocks(test, true_to, false_to):
+    def test_blocks(test, true_to, false_to, entry='pre', made=None):
         """Blocks and edges of a condition.  A short-circuit chain (a real BoolOp node) is one block per operand: under `and` a
         false operand leaves to the false exit, the last true one to the true exit; under `or` the other way round."""
         if test is not None and test.cls == 'BoolOp' and getattr(test.fields.get('op'), 'cls', None) in ('And', 'Or'):
             is_and = test.fields['op'].cls == 'And'
             names = [blk('%s.values[%d]' % (test.path, i), v) for i, v in enumerate(test.fields['values'])]
-            edges.append(('pre', names[0]))
+            if made is not None:
+                made.extend(names)
+            edges.append((entry, names[0]))
             for i, nm in enumerate(names):
                 last = i == len(names) - 1
                 edges.append((nm, false_to if is_and else true_to))
                 edges.append((nm, names[i + 1]) if not last else (nm, true_to if is_and else false_to))
             return names[0]
         t = blk(test.path if test is not None else 'node.test', test)
-        edges.extend([('pre', t), (t, true_to), (t, false_to)])
+        if made is not None:
+            made.append(t)
+        edges.extend([(entry, t), (t, true_to), (t, false_to)])
         return t
 
     if c == 'If':
@@ -283,6 +287,29 @@ def block_cfg(root):
         el = blk('node.orelse', f['orelse'])
         t0 = test_blocks(f['test'], bd, el)
         edges += [(bd, t0), (el, 'after')]
+    elif c == 'Try' and f['body'] and f['body'][-1].cls == 'If' and f['body'][-1].fields['body'] \
+            and f['body'][-1].fields['body'][-1].cls == 'Raise' and not f['body'][-1].fields['orelse']:
+        # try: S0; if c: S1; raise E  -  the statements of the branch before the raise, and its expression, hand control to the
+        # handlers like every other statement of the try body; when the test fails the try body ends normally
+        ifn = f['body'][-1]
+        bd = blk('node.body[0]', f['body'][:-1])
+        ib = blk(ifn.path + '.body[0]', ifn.fields['body'][:-1])
+        esc = blk(ifn.fields['body'][-1].path, ifn.fields['body'][-1])
+        el = blk('node.orelse', f['orelse'])
+        fin = blk('node.finalbody', f['finalbody'])
+        tests = []
+        test_blocks(ifn.fields['test'], ib, el, entry=bd, made=tests)
+        edges += [('pre', bd), (ib, esc), (el, fin), (esc, fin), (fin, 'after')]
+        prev_type = None
+        for i, h in enumerate(f['handlers']):
+            ty = blk('node.handlers[%d].type' % i, h.fields.get('type'))
+            hb = blk('node.handlers[%d].body' % i, h.fields['body'])
+            if prev_type is None:
+                edges += [('pre', ty), (bd, ty), (ib, ty), (esc, ty)] + [(t_, ty) for t_ in tests]
+            else:
+                edges += [(prev_type, ty)]
+            edges += [(ty, hb), (hb, fin)]
+            prev_type = ty
     elif c == 'Try' and f['body'] and f['body'][-1].cls in ('Return', 'Raise'):
         # try: S...; return E  -  every statement before the escaping one, and its expression, can hand control to the
         # handlers (exception) and to the finally block; the else block is never reached
